@@ -4,5 +4,6 @@ CONSTANTS
   MaxAbsent = 2
   GroupProduct = FALSE
   OddAll = FALSE
+  MaxSeq = 2
 INVARIANTS Theorems
 CHECK_DEADLOCK FALSE
